@@ -897,7 +897,7 @@ Definition pg_adm (w : pg_world) (o : pg_op) : Prop :=
   | PoReplace d i _ => pg_not_node (pg_get w d) i
   | PoSwap d i j => pg_not_node (pg_get w d) i /\ pg_not_node (pg_get w d) j /\
                     pg_lookup (pd_store (pg_get w d)) i <> None /\ pg_lookup (pd_store (pg_get w d)) j <> None
-  | PoCopyForeign _ _ | PoRefresh _ | PoPushInh _ => False
+  | PoCopyForeign _ _ | PoRefresh _ | PoPushInh _ | PoReplaceInd _ _ _ | PoReplaceReserved _ _ => False
   end.
 
 (* the same call on the plain list (content markers) *)
@@ -971,7 +971,7 @@ Lemma pg_step_refines : forall w o, pg_good w -> pg_adm w o ->
   let '(s', raise_) := pg_spec_step (pg_marks2 w) (pg_abs w o) in
   pg_marks2 w' = s' /\ pg_is_err r = raise_ /\ pg_good w'.
 Proof.
-  intros w o Hg Ha. destruct o as [d h first|d h first|d h before r|d h|d i|d h|d i v|d i j|d|d|d|d i|d v];
+  intros w o Hg Ha. destruct o as [d h first|d h first|d h before r|d h|d i|d h|d i v|d i j|d|d|d|d i|d v|d i h|d i];
     cbn [pg_adm] in Ha; try contradiction; destruct (pg_good_get w d Hg) as [Hi Hne].
   - (* addPage *)
     cbn [pg_step pg_abs]. destruct first.
